@@ -189,7 +189,8 @@ func runCase(c *vrun.Case, s scenario) vrun.Result {
 			if r.Intn(2) == 0 {
 				cancel()
 			} else {
-				go func() { time.Sleep(time.Duration(r.Intn(200)) * time.Microsecond); cancel() }()
+				d := time.Duration(r.Intn(200)) * time.Microsecond
+				go func() { time.Sleep(d); cancel() }()
 			}
 		}
 		firstFlush()
